@@ -136,15 +136,25 @@ func init() {
 		Run: func(c *Ctx) []core.Ob {
 			in := pkgPred("nbt", "nbt/dynbt")
 			obs := c.TLGObs(in, in, true)
+			var roots []*ssa.Function
+			for _, r := range c.DecoderRoots() {
+				if in(r) {
+					roots = append(roots, r)
+				}
+			}
+			obs = append(obs, c.Panics(c.Verif, roots, in, in)...)
 			obs = append(obs, c.rootObs("R-TLG", "nbt.(*Decoder).Decode", "nbt.(*Decoder).unmarshal", "nbt.(*Decoder).rawRead", "nbt/dynbt.(*Value).UnmarshalNBT", "nbt.(*StringifiedMessage).UnmarshalNBT", "nbt.(*RawMessage).UnmarshalNBT")...)
 			return obs
 		},
 	}
 	Props["C08"] = PropDef{
-		Explanation: "R-TLG over every decoder in the module: each peer-derived length/count/index is range-checked before make, slicing, indexing, reflect.MakeSlice/Slice/SetLen, io.CopyN, division and shifts. Armed for net/packet, level, chat, registry, server/command (the decoders the property enumerates); bot/*, chat/sign, yggdrasil are informational. Not decided: implicit panics outside these classes, non-termination other than count-bounded loops.",
+		Explanation: "R-TLG over every decoder in the module: each peer-derived length/count/index is range-checked before make, slicing, indexing, reflect.MakeSlice/Slice/SetLen, io.CopyN, division and shifts. Armed for net/packet, level, chat, registry, server/command (the decoders the property enumerates); bot/*, chat/sign, yggdrasil are informational. R-PANIC: every explicit panic reachable (VTA call graph) from a decoder root is triaged in rules/panic_sites.json (an untriaged one fails), calls through exported func-typed fields are nil-guarded, calls of NewBitStorage on network decode paths establish its length precondition. Not decided: implicit panics outside these classes, type assertions, non-termination other than count-bounded loops.",
 		Run: func(c *Ctx) []core.Ob {
 			armed := pkgPred("net/packet", "level", "chat", "registry", "server/command", "net", "nbt", "nbt/dynbt")
 			obs := c.TLGObs(yes, armed, false)
+			obs = append(obs, c.Panics(c.Verif, c.DecoderRoots(), yes, armed)...)
+			obs = append(obs, c.FuncFieldCalls(yes, armed)...)
+			obs = append(obs, c.GuardedCalls("level.NewBitStorage", 2, c.NetworkRoots(), yes, armed)...)
 			obs = append(obs, c.rootObs("R-TLG", "net/packet.(*Packet).UnPack", "net/packet.(*String).ReadFrom", "net/packet.(*ByteArray).ReadFrom", "net/packet.(*BitSet).ReadFrom",
 				"net/packet.(Ary).ReadFrom", "level.(*BitStorage).ReadFrom", "level.(*PaletteContainer).ReadFrom", "level.(*Chunk).ReadFrom", "registry.(*Registry).ReadFrom", "registry.(*Registry).ReadTagsFrom")...)
 			return obs
